@@ -294,6 +294,14 @@ func Run(c *core.Ctx, pool *gjs.Pool) {
 	c.Set("variable_scenarios", len(vars))
 	c.Set("topology_dimensions", map[string]any{"vias": allVias, "kinds": kinds, "carriers": allCarriers, "d2s": d2s, "i2s": i2s, "wheres": allWheres})
 
+	if max := 700; !c.Thorough() && len(topos) > max {
+		// the quick tier replays a VERIF_SEED sample of the enumerated topologies (TLC
+		// checked Executed <= Needed <= Alive on all of them)
+		c.Set("topologies_enumerated", len(topos))
+		sort.Slice(topos, func(i, j int) bool { return topos[i].P.key() < topos[j].P.key() })
+		rng.Shuffle(len(topos), func(i, j int) { topos[i], topos[j] = topos[j], topos[i] })
+		topos = topos[:max]
+	}
 	// units
 	var batchable, singles []*unit
 	for i, s := range topos {
